@@ -553,6 +553,38 @@ def search(ctx):
                                "observed": bad, "expected": "RFC 6979 nonce derived with the hash in force (the hashfunc argument, else the key's default), whatever the digest length"})
                 if len(ctx.violations) >= 3:
                     return
+    # hash callables that carry CONSTRUCTOR PARAMETERS (personalised / salted / keyed BLAKE2): their .name and digest_size
+    # equal those of the plain algorithm, so any shortcut that re-creates the hash "by name" computes HMAC with another function
+    for spec in PARAM_HASHES:
+        hf = param_hash(spec)
+        for (order, secexp) in ((curves.NIST256p.order, 0xC9AFA9D845BA75166B5C215767B1D6934E50C3DB36E89B127B8A622B120F6721), (167, 140),
+                                (curves.NIST521p.order, 3)):
+            for dg in (hashlib.sha256(b"param").digest(), b"\x01", hashlib.sha512(b"param").digest() * 2):
+                for rg, extra in ((0, b""), (1, b"x")):
+                    n_eval += 1
+                    bad = check_k(rfc6979, order, secexp, hf, dg, rg, extra)
+                    if bad:
+                        ctx.violation({"input": {"kind": "generate_k_param", "hash_spec": spec_json(spec), "order": order, "secexp": secexp,
+                                                 "digest": dg.hex(), "retry_gen": rg, "extra": extra.hex()},
+                                       "observed": bad, "expected": "the RFC 6979 nonce with HMAC over the hash callable handed in (constructor parameters included)"})
+                        if len(ctx.violations) >= 3:
+                            return
+    # digests handed over in containers whose items are wider than a byte (array('H'), array('I'), memoryviews of them): the
+    # deterministic signature must be the one for the same BYTES (a len() that counts items breaks the leftmost-bits rule)
+    import array
+    for cv in (curves.NIST192p, curves.SECP160r1, curves.NIST521p, curves.SECP112r2):
+        sk = SigningKey.from_secret_exponent(rng.randrange(1, cv.order), cv, hashfunc=hashlib.sha256)
+        for dlen in (cv.baselen + 4, 2 * cv.baselen + 8, 64, 128):
+            dlen -= dlen % 4
+            dg = bytes(rng.getrandbits(8) for _ in range(dlen))
+            for cname in CONTAINERS:
+                n_eval += 1
+                bad = check_sign_container(sk, dg, cname)
+                if bad:
+                    ctx.violation({"input": {"kind": "sign_container", "curve": cv.name, "d": sk.privkey.secret_multiplier, "digest": dg.hex(), "container": cname},
+                                   "observed": bad, "expected": "sign_digest_deterministic(container(digest)) == sign_digest_deterministic(bytes(digest)), allow_truncate=True"})
+                    if len(ctx.violations) >= 3:
+                        return
     # user-defined hash callables created, used and dropped in a loop (alternating digest sizes)
     for kind in ("partial", "class"):
         for (order, secexp) in ((curves.NIST256p.order, 0xC9AFA9D845BA75166B5C215767B1D6934E50C3DB36E89B127B8A622B120F6721), (167, 140)):
@@ -567,10 +599,64 @@ def search(ctx):
     ctx.hist("search", "oracle_cases", n_eval)
 
 
+PARAM_HASHES = [("blake2b", {"person": b"verif-c04"}), ("blake2s", {"salt": b"salt"}), ("blake2b", {"key": b"kkkkk", "digest_size": 32}),
+                ("blake2b", {"digest_size": 48, "person": b"p"}), ("blake2s", {"digest_size": 20, "salt": b"s", "person": b"q"})]
+CONTAINERS = ("array_H", "array_I", "memoryview_array_I", "memoryview_array_H", "bytearray", "memoryview_bytes")
+
+
+def param_hash(spec):
+    import functools
+    return functools.partial(getattr(hashlib, spec[0]), **spec[1])
+
+
+def spec_json(spec):
+    return [spec[0], {k: (v.hex() if isinstance(v, bytes) else v) for k, v in spec[1].items()}]
+
+
+def spec_from_json(j):
+    return (j[0], {k: (bytes.fromhex(v) if isinstance(v, str) else v) for k, v in j[1].items()})
+
+
+def container(cname, b):
+    import array
+    if cname == "array_H":
+        return array.array("H", b)
+    if cname == "array_I":
+        return array.array("I", b)
+    if cname == "memoryview_array_I":
+        return memoryview(array.array("I", b))
+    if cname == "memoryview_array_H":
+        return memoryview(array.array("H", b))
+    if cname == "bytearray":
+        return bytearray(b)
+    return memoryview(b)
+
+
+def check_sign_container(sk, dg, cname):
+    pair = lambda r, s, o: (r, s)
+    try:
+        want = sk.sign_digest_deterministic(dg, sigencode=pair, allow_truncate=True)
+    except Exception as e:  # noqa
+        return None   # no statement when the plain call itself raises
+    try:
+        got = sk.sign_digest_deterministic(container(cname, dg), sigencode=pair, allow_truncate=True)
+    except Exception as e:  # noqa
+        return {"got": "exception " + common.errname(e), "expected": list(want)}
+    if tuple(got) != tuple(want):
+        return {"got": list(got), "expected": list(want)}
+    return None
+
+
 def replay(rec):
     from ecdsa import rfc6979, SigningKey, curves
     i = rec["input"]
     hf = None
+    if i["kind"] == "generate_k_param":
+        return check_k(rfc6979, i["order"], i["secexp"], param_hash(spec_from_json(i["hash_spec"])), bytes.fromhex(i["digest"]), i["retry_gen"],
+                       bytes.fromhex(i["extra"])) is not None
+    if i["kind"] == "sign_container":
+        cv = [c for c in curves.curves if c.name == i["curve"]][0]
+        return check_sign_container(SigningKey.from_secret_exponent(i["d"], cv, hashfunc=hashlib.sha256), bytes.fromhex(i["digest"]), i["container"]) is not None
     if "hash" in i:
         hf = hash_by_name(i["hash"]) if not hasattr(hashlib, i["hash"]) else getattr(hashlib, i["hash"])
     if i["kind"] == "generate_k":
